@@ -57,8 +57,10 @@ def expand(tok, prefixes):
     return at + ("[" + tok + "]" if br else tok)
 
 
-def parse(text):
+def parse(text, perm=0):
+    import itertools
     doc = Doc()
+    doc.n_perms = 1
     cur = None
     last = None
     for raw in text.split("\n"):
@@ -191,7 +193,11 @@ def parse(text):
             else:
                 labs_sorted = sorted(labs, key=lambda x: repr((doc.shapes[x]["n"], sorted(repr((c["inv"], c["pred"], c["values"], c["card"], c["fig"]))
                                                                                          for c in doc.shapes[x]["cons"]))))
-                for i, x in enumerate(labs_sorted):
+                # these shapes cannot be told apart by what they describe: the numbering is a guess, and the comparator
+                # tries the other numberings of one side too (perm) before it reports a difference
+                perms = list(itertools.islice(itertools.permutations(labs_sorted), 24))
+                doc.n_perms = max(doc.n_perms, len(perms))
+                for i, x in enumerate(perms[perm % len(perms)]):
                     rename[x] = "%s~%d" % (L, i + 1)
     for lab in doc.order:
         sh = doc.shapes[lab]
@@ -227,9 +233,10 @@ STATS = {"documents_read": 0, "lines_not_understood": 0, "documents_not_readable
 class Evidence(object):
     """Order-insensitive views of one document."""
 
-    def __init__(self, text):
+    def __init__(self, text, perm=0):
         self.text = text
-        self.doc = parse(text)
+        self.doc = parse(text, perm)
+        self.n_perms = self.doc.n_perms
         d = self.doc
         STATS["documents_read"] += 1
         STATS["lines_not_understood"] += len(d.unparsed)
